@@ -283,7 +283,23 @@ func runC02(c *core.Ctx, o Options) {
 				}
 				isLenOfSplit := func(v ssa.Value) bool { return isLenOf(v, split) }
 				boundIsLenOfPieces := isLenOf(boundVal, pieces)
+				// the helper may be handed the count: the bound is then what the caller passes for that parameter, and the
+				// caller must have compared it with the number of pieces
+				callerBound := false
 				if lf != um && !boundIsLenOfPieces {
+					if prm, isP := boundVal.(*ssa.Parameter); isP {
+						if call, isC := entry.(*ssa.Call); isC {
+							for i, q := range lf.Params {
+								if q == prm && i < len(call.Call.Args) {
+									boundVal = call.Call.Args[i]
+									bound = an.Render(boundVal)
+									callerBound = true
+								}
+							}
+						}
+					}
+				}
+				if lf != um && !boundIsLenOfPieces && !callerBound {
 					bad = append(bad, "the helper's loop does not run over the pieces it is given (bound "+bound+")")
 				}
 				cntOK := false
@@ -294,7 +310,7 @@ func runC02(c *core.Ctx, o Options) {
 					found := false
 					for _, a := range p.Atoms {
 						if bo, ok := a.Val.(*ssa.BinOp); ok && a.Rel == "==" {
-							if lf == um && ((isLenOfSplit(bo.X) && bo.Y == boundVal) || (isLenOfSplit(bo.Y) && bo.X == boundVal)) {
+							if (lf == um || callerBound) && ((isLenOfSplit(bo.X) && bo.Y == boundVal) || (isLenOfSplit(bo.Y) && bo.X == boundVal)) {
 								found = true
 							}
 							// range over the pieces themselves: the loop bound is len(pieces); the comparison with the parsed count must still be on the path
@@ -507,7 +523,8 @@ func checkValueExtraction(c *core.Ctx, rule string) {
 	if fb == nil || an.Render(fb.Call.Args[0]) != "el" {
 		bad = append(bad, "scanKeyValue does not hand the value to el.FromBytes")
 	} else {
-		paths, _ := an.EnumPaths(sk, 256)
+		// (interprocedural paths: the search for the field may live in a helper that returns where it starts)
+		paths, _ := an.EnumPathsX(sk, 256)
 		n := 0
 		for _, p := range paths {
 			if !p.Passes(fb) {
@@ -521,7 +538,7 @@ func checkValueExtraction(c *core.Ctx, rule string) {
 				continue
 			}
 			inner, ok := an.ResolveOnPath(outer.X, p).(*ssa.Slice)
-			if !ok || inner.High != nil || inner.Low == nil || an.Render(inner.X) != "data" {
+			if !ok || inner.High != nil || inner.Low == nil || an.RenderOnPath(inner.X, p) != "data" {
 				bad = append(bad, "the value does not start inside data after the matched tag")
 				continue
 			}
@@ -533,16 +550,16 @@ func checkValueExtraction(c *core.Ctx, rule string) {
 			m := start.Add(tagLen, -1)
 			okStart := m.IsConst() && m.K == 0
 			if !okStart {
-				an.AllInstrs(sk, func(in ssa.Instruction) {
-					if call, ok := in.(*ssa.Call); ok && an.CalleeIs(&call.Call, "bytes", "Index") && an.Render(call.Call.Args[0]) == "data" {
-						ev := &an.SeqEval{}
+				for _, in := range p.InstrSeq() {
+					if call, ok := in.(*ssa.Call); ok && an.CalleeIs(&call.Call, "bytes", "Index") && an.RenderOnPath(call.Call.Args[0], p) == "data" {
+						ev := &an.SeqEval{Path: p}
 						if ev.Eval(call.Call.Args[1]).Norm().String() == "'␁'·⟨el.Key⟩·'='" {
 							if m.String() == pr.Lin(call).Add(an.LForm{C: map[string]int64{}, K: 1}, 1).String() {
 								okStart = true
 							}
 						}
 					}
-				})
+				}
 			}
 			if !okStart {
 				bad = append(bad, fmt.Sprintf("the value starts at %s: that is not right after a 'tag=' matched at the start of the data or by the SOH-anchored search", start.String()))
@@ -577,7 +594,7 @@ func checkValueExtraction(c *core.Ctx, rule string) {
 	}
 	c.Check(len(bad) == 0, rule, "state.scanKeyValue", "value = data[match+len(tag=) : next SOH or end], handed to FromBytes unmodified", sk.Pos(), "exact sub-slice", strings.Join(bad, "; "))
 	// a field that is not found leaves the element untouched and is not an error
-	paths, _ := an.EnumPaths(sk, 256)
+	paths, _ := an.EnumPathsX(sk, 256)
 	okAbsent := false
 	for _, p := range paths {
 		if p.Return != nil && !p.Passes(fb) && p.Results[0] == "nil" {
